@@ -70,6 +70,11 @@ def program_scripts(tier):
 
     for s in programs.SPECIALS:
         add(s)
+    # verbatim code whose meaning depends on how the definition is compiled (assert statements, __debug__, docstrings)
+    add('```\nassert self._X[t] > 0\n```\nY = X')
+    add('Y = X\n```\nif __debug__:\n    self._Y[t] = self._Y[t] + 1\n```')
+    add("```\n'''a string statement'''\nself._Y[t] = self._X[t] * 2\n```")
+    add('`assert self._Z[t-1] != self._Z[t], "no change"`\nY = Z[-1] + Z')
     for nm in ['X', 'x1', '_u', 'is_open', 'not_X', 'Ta']:
         for kind, sp in programs.S1_KINDS[:3]:
             for off, form in [(0, 'none'), (-1, 'plain'), (2, 'plus'), (-3, 'spaced')]:
@@ -192,6 +197,32 @@ def run_case(case):
         got_lines = [ln for ln in got_lines if ln != 'pass']
         if got_lines != want_lines:
             out.append(('converter-output:%s' % cname, want_lines[:4], got_lines[:4], 'the evaluation body is not exactly what the converter returned'))
+    # 2c. symbols without an equation contribute variables but no code: switch each equation off in turn (equation=None, the
+    #     rest of the symbol - its code included - left as it was) and the converter is no longer called for it
+    for k, victim in enumerate(carriers[:3]):
+        edited = [x._replace(equation=None) if x is victim else x for x in symbols]
+        calls = []
+        try:
+            text_e = fsic.build_model_definition(edited, converter=lambda x: calls.append(x) or marker_converter(x))
+            M_e = fsic.build_model(edited)
+        except Exception as e:
+            out.append(('no-equation-symbol:%s' % type(e).__name__, 'builds', repr(e)[:160], 'a symbol list with an equation switched off (equation=None) cannot be built'))
+            break
+        if len(calls) != len(carriers) - 1 or any(x is victim for x in calls):
+            out.append(('no-equation-symbol:converter-called', len(carriers) - 1, len(calls), 'the converter ran for a symbol that carries no equation'))
+            break
+        if attrs(M_e)[:6] != attrs(fsic.build_model(symbols))[:6]:
+            out.append(('no-equation-symbol:variables', attrs(fsic.build_model(symbols))[:6], attrs(M_e)[:6], 'a symbol without an equation must still contribute its variable'))
+            break
+    # 2d. a symbol list that is equal (==) to the parsed one builds the same class: types as plain integers (what a round
+    #     trip through JSON / CSV gives back), fields as built by keyword
+    plain = [type(x)(**dict(x._asdict(), type=int(x.type))) for x in symbols]
+    if plain == symbols:
+        try:
+            if attrs(fsic.build_model(plain)) != attrs(fsic.build_model(symbols)) or attrs(exec_class(fsic.build_model_definition(plain, with_type_hints=False))) != attrs(fsic.build_model(symbols)):
+                out.append(('equal-symbols:attributes', attrs(fsic.build_model(symbols)), attrs(fsic.build_model(plain)), 'a symbol list equal to the parsed one (types as plain integers) builds a different class'))
+        except Exception as e:
+            out.append(('equal-symbols:%s' % type(e).__name__, 'builds', repr(e)[:160], 'a symbol list equal to the parsed one cannot be built'))
     if not carriers:
         M0 = fsic.build_model(symbols)
         m0 = M0(range(4))
